@@ -171,6 +171,12 @@ def bodies(tier):
     if T:
         for p in payload_space(LONG, b"\r\n", 1):
             yield ("E2", LONG, (fld(b"a", p), fil(b"f", p)), {})
+    # G: multi-byte text longer than the hold-back threshold: Data events may cut inside a character, the
+    # field value must still be decoded as one text (parser level: every buffer size and short read)
+    for text in ("é" * 9, "aé" * 6 + "\n" + "名" * 5, "𝄞" * 4 + "x"):
+        yield ("Gu", SHORT, (fld(b"a", text.encode()),), {})
+    yield ("Gu", SHORT, (fld(b"a", ("é" * 9).encode()), fil(b"f", ("é" * 9).encode())), {})
+    yield ("Gl", SHORT, (("field", b"a", None, b"text/plain; charset=iso-8859-1", b"\xe9" * 12),), {})
     # F: three parts
     small = [None, b"", b"a", b"\r", b"\n", b"\r\n", b"--", b"x\r"] if T else [None, b"a", b"\r\n"]
     for p1, p2, p3 in itertools.product(small, repeat=3):
@@ -179,8 +185,8 @@ def bodies(tier):
 
 def parser_level_selected(descr: str, idx: int, tier: str) -> bool:
     if tier == "thorough":
-        return descr in ("A0", "A1f", "A1F", "C1", "Dpad", "Dcont", "E1", "F3", "B2") and (descr != "A1f" or idx % 8 == 0) and (descr != "B2" or idx % 8 == 0)
-    return descr in ("A0", "A1F", "C1", "Dpad", "Dcont") or (descr == "F3" and idx % 3 == 0)
+        return descr in ("A0", "A1f", "A1F", "C1", "Dpad", "Dcont", "E1", "F3", "B2", "Gu", "Gl") and (descr != "A1f" or idx % 8 == 0) and (descr != "B2" or idx % 8 == 0)
+    return descr in ("A0", "A1F", "C1", "Dpad", "Dcont", "Gu", "Gl") or (descr == "F3" and idx % 3 == 0)
 
 
 BATCH = 2
@@ -357,7 +363,8 @@ def expected_form(parts):
     fl = []
     for kind, name, filename, ctype, payload in parts:
         if kind == "field":
-            f.append((name.decode(), (payload or b"").decode("utf-8", "replace")))
+            cs = "iso-8859-1" if ctype and b"charset=iso-8859-1" in ctype else "utf-8"
+            f.append((name.decode(), (payload or b"").decode(cs, "replace")))
         else:
             fl.append((name.decode(), filename.decode(), ctype.decode() if ctype else None, payload or b""))
     return tuple(f), tuple(fl)
